@@ -14,8 +14,21 @@ import (
 
 func TestMain(m *testing.M) {
 	fp.VerifSetAtomicHook(kit.HookYield)
-	fp.VerifSetSpawn(kit.HookSpawn)
+	fp.VerifSetSpawn(spawnHook)
 	kit.Main(m)
+}
+
+// spawnHook hands every task of the default executors to the active scheduler. In this package every
+// library call that can reach a default executor is made from a scheduler thread, so "no active
+// scheduler" only happens in a thread that is being torn down: when a run is abandoned (a thread
+// panicked, or rapid aborted a shrink attempt inside a schedule decision) the parked threads are
+// unwound with a kill panic, and a thread parked inside the body of Apply/Apply2/Func* has that panic
+// captured by the library's own recover and carries on outside the scheduler. Its tasks are dropped:
+// started as real goroutines they would outlive the case and step into the scheduler of the next one
+// (seen as `fatal|panic:(kit.killed)` while shrinking a failure). Runs that end normally never get here.
+func spawnHook(run func()) bool {
+	kit.HookSpawn(run)
+	return true
 }
 
 type probe struct {
